@@ -1,5 +1,6 @@
 import CssVerif.Lib.Proto
 import CssVerif.Model.Mutators
+import CssVerif.Model.MutatorTree
 import CssVerif.Gen.C11Scripts
 open CssVerif.Proto CssVerif.Mutators
 
@@ -8,6 +9,10 @@ Driver for C11. Requests:
 * `count`                         -> number of extracted scripts
 * `info <i>`                      -> `<name> disc=<0|1> guarded=<0|1> rosafe=<0|1> dirty=<f,f,..|-> fields=<n>`
 * `run <i> <ro 0|1> <fuel> <bits>`-> `<exit> trace=<m.m.m|-> dirty=<f,f|-> left=<n>`; bits = string of 0/1 (`-` = none)
+* `deep <i> <ro 0|1> <fuel> <bits>`-> same format: script `i` run on the root of the ownership tree `drvWorld` (every
+  object carries all extracted mutators; children start in `St.init false`), the root's `call f` statements really
+  executed (`World.runFrom`, one level; the children's own calls by the contract `Handler.shallow`); at a call the
+  bits give the number of the child's script in unary (1ⁿ0), then the child's decisions
 -/
 
 def showExit : Exit → String
@@ -24,7 +29,13 @@ def parseBits (s : String) : Option (List Bool) :=
     | '1', some l => some (true :: l)
     | _, _ => none) (some [])
 
-def scriptsArr : Array Script := CssVerif.Gen.C11.scripts.toArray
+def scriptsArr : Array Script := (CssVerif.Gen.C11.scripts ++ CssVerif.Gen.C11.internalScripts).toArray
+
+def drvWorld : World := ⟨fun _ => CssVerif.Gen.C11.scripts ++ CssVerif.Gen.C11.internalScripts, fun _ => St.init false⟩
+
+def showRes (sc : Script) (st0 : St) (r : Res) : String :=
+  let dirty := sc.fields.filter fun f => r.st.cur f != st0.cur f
+  s!"{showExit r.exit} trace={if r.st.trace.isEmpty then "-" else ".".intercalate (r.st.trace.reverse.map toString)} dirty={showList dirty} left={r.os.length}"
 
 def handle (line : String) : String :=
   match words line with
@@ -47,6 +58,17 @@ def handle (line : String) : String :=
           let r := run fu sc.body st0 os
           let dirty := sc.fields.filter fun f => r.st.cur f != st0.cur f
           s!"{showExit r.exit} trace={if r.st.trace.isEmpty then "-" else ".".intercalate (r.st.trace.reverse.map toString)} dirty={showList dirty} left={r.os.length}"
+        else "bad-op"
+      else "bad-op"
+    | _, _, _ => "bad-op"
+  | ["deep", i, ro, fuel, bits] =>
+    match i.toNat?, fuel.toNat?, parseBits bits with
+    | some n, some fu, some os =>
+      if h : n < scriptsArr.size then
+        if ro == "0" || ro == "1" then
+          let sc := scriptsArr[n]
+          let st0 := St.init (ro == "1")
+          showRes sc st0 (drvWorld.runFrom Handler.shallow 1 [] fu sc.body st0 os)
         else "bad-op"
       else "bad-op"
     | _, _, _ => "bad-op"
